@@ -11,6 +11,7 @@ from vt.props import common as cm
 
 PID = "C04"
 RULE = (
+    "[plus a small 'cli_wiring' part: generated `taskiq worker` flag sets parsed by the real WorkerArgs.from_cli and turned into a receiver by the real start_listen(); --max-async-tasks / --max-prefetch (defaults 100 / 0) reach the receiver unchanged] "
     "Hypothesis-generated scenarios with finite A in 1..4 and P in 0..4, backlogs of 0..3*(A+P+2) ackable messages; "
     ">=50% of cases come from a saturation family (burst arrivals of >= A+P+2 messages, durations >= 1 s; in a third of "
     "them preceded by 1-3 messages whose ack callback raises, i.e. whose processing ends with an escaping exception), the rest "
@@ -118,3 +119,33 @@ def run_case(sc: Dict[str, Any]) -> Outcome:
 
 
 SELFTEST_CASES = []
+
+
+
+# ---------------------------------------------------------------- CLI wiring: from worker flags to the receiver
+#
+# --max-async-tasks / --max-prefetch (defaults 100 / 0) reach the receiver unchanged.  Flags are parsed with the real WorkerArgs.from_cli and the real start_listen() builds the receiver
+# (a recording subclass whose listen() returns at once).
+
+from vt.harness import cliwire as _cliwire
+
+_parts_core = parts
+_run_core = run_case
+
+
+def parts(tier: str) -> List[Part]:  # type: ignore[no-redef]
+    ps = _parts_core(tier)
+    ps.append(Part("cli_wiring", "given", shards=1, examples=1500 if tier == "thorough" else 150,
+                   strategy=lambda: _cliwire.FLAGS.map(lambda f: {"flags": f}), soft_deadline_s=300))
+    return ps
+
+
+def run_case(case: Dict[str, Any]) -> Outcome:  # type: ignore[no-redef]
+    if "flags" not in case:
+        return _run_core(case)
+    out = Outcome()
+    out.clauses_checked = ["C04.a"]
+    _cliwire.check(case["flags"], ['max_async_tasks', 'max_prefetch'], "C04.a", out)
+    out.nontrivial = any(case["flags"].get(k) not in (None, False) for k in case["flags"])
+    out.classes = ["cli_wiring"]
+    return out
